@@ -31,6 +31,7 @@ func (m *FixPeriodPlanner) Process(ctx *shared.PlannerContext,
 		values      []float64
 		fingerprint uint64
 		labels      map[string]string
+		started     bool
 	)
 
 	exportEntries := func() {
@@ -57,8 +58,9 @@ func (m *FixPeriodPlanner) Process(ctx *shared.PlannerContext,
 		defer close(res)
 		for entries := range _in {
 			for _, entry := range entries {
-				if entry.Fingerprint != fingerprint {
+				if !started || entry.Fingerprint != fingerprint {
 					exportEntries()
+					started = true
 					fingerprint = entry.Fingerprint
 					values = make([]float64, (_to-_from)/ctx.Step.Nanoseconds()+1)
 					labels = entry.Labels
